@@ -140,7 +140,8 @@ fn auth_failed_for(full: &str) -> Option<(String, String)> {
     let rest = &full[i..];
     // BlueprintId renders as `<package address>:<BlueprintName>`
     let bp = rest.split(":<").nth(1)?.split('>').next()?.to_string();
-    let ident = rest.split("ident: \"").nth(1)?.split('"').next()?.to_string();
+    // FnIdentifier renders as `<blueprint id>:"ident"`
+    let ident = rest.split(">:\"").nth(1)?.split('"').next()?.to_string();
     Some((bp, ident))
 }
 
@@ -321,6 +322,12 @@ impl<'a> Fuzzer<'a> {
             Route::Method(n) | Route::MethodViaProxy(n) | Route::Module(n, _) | Route::ModuleViaProxy(n, _) | Route::Direct(n) | Route::DirectViaProxy(n) => w.affinity.get(n).cloned().unwrap_or_default(),
             Route::ProxyVault(i) => w.proxy_vaults.get(*i as usize).map(|(r, _, _)| vec![*r]).unwrap_or_default(),
             _ => vec![],
+        };
+        g.invalid_budget = match g.rng.below(20) {
+            0..=5 => 0,
+            6..=15 => 1,
+            16..=18 => 3,
+            _ => 1000,
         };
         match g.rng.below(10) {
             0 => {
